@@ -4,7 +4,7 @@
 (* the contract allows (new capacity = max(old + old div 2, old + 1), i.e. *)
 (* GrowOK with equality), appending n elements one at a time from an empty *)
 (* container of inline capacity N0 performs at most 2*ceil(log2 n) + 2     *)
-(* allocations and relocates at most 3n + 3 elements in total.  TLC        *)
+(* allocations and relocates at most 3n + 2*ceil(log2 n) + 3 elements in total.  TLC        *)
 (* evaluates the statement for every n up to MaxN and every N0 in Caps.    *)
 (* (Trace validation then checks every real reallocation step against      *)
 (* GrowOK and the real counters of long runs against the same bounds.)     *)
@@ -28,7 +28,7 @@ Theorem ==
   \A N0 \in Caps : \A n \in 1..MaxN :
     LET r == Sim(N0, n, 0, 0) IN
     /\ r[1] <= 2 * Log2Ceil(n) + 2
-    /\ r[2] <= 3 * n + 3
+    /\ r[2] <= 3 * n + 2 * Log2Ceil(n) + 3     \* (the floor in old + old div 2 costs at most one element per step)
 
 VARIABLE done
 Init == done = FALSE
